@@ -9,6 +9,8 @@
  *                detached grandchild renames it back later -- execvp() fails with ENOENT for the targets pdsh
  *                starts in between (the transport's child fails BEFORE exec)
  *   X USEC       same, by taking away the execute permission (EACCES)
+ *   C FD USEC    close descriptor FD (1 = stdout, 2 = stderr) now -- pdsh sees that stream end while the other
+ *                one goes on -- then sleep USEC
  * and finally exits with the status given by an optional line `x STATUS`.
  * It leaves DIR/HOST.ran behind: a target without that file never got its command started.
  * pdsh -R exec runs it once per target with %h substituted.
@@ -117,6 +119,8 @@ int main(int argc, char **argv)
             if (epos + n > elen) n = elen - epos;
             write_all(2, e + epos, n);
             epos += n;
+        } else if (k == 'C') {
+            close((int) n);
         } else if (k == 'x') {
             status = (int) n;
         } else if (k == 'U' || k == 'X') {
